@@ -574,3 +574,116 @@ def c06_r(ctx):
         yield Case(shape, _c06_r_case(shape, text, md, ms),
                    needed=['deadlock-injected', 'quiescent'],
                    max_paths=500000)
+
+
+# ---------------------------------------------------------------------------
+# C06.S  duplicated completion of a sub-workflow item of a with-items task
+# ---------------------------------------------------------------------------
+ITEMS_SUBWF_CONC = """
+version: '2.0'
+parent:
+  tasks:
+    p1:
+      with-items: i in [0, 1, 2]
+      concurrency: 2
+      workflow: child
+      on-success: p2
+    p2:
+      action: std.noop
+child:
+  tasks:
+    c1:
+      action: std.noop
+"""
+
+
+def _c06_s_case(max_dup):
+    """the completion message of a finished sub-workflow item (solver
+    choice: which one) is delivered a second time, right away or after
+    everything else; also the scheduled completion job of the with-items
+    task"""
+    def case():
+        from vt.world import World, Event
+        from mistral_lib import actions as ml
+        sig = 'C06.S'
+        w = World([ITEMS_SUBWF_CONC])
+        with w:
+            wid = w.start('parent')
+            which = choice('dup_nth', list(range(1, max_dup + 1)))
+            kind = choice('dup_kind', ['wf_action_complete',
+                                       'scheduled_job'])
+            where = choice('dup_where', ['next', 'last'])
+            seen = {'n': 0, 'done': False}
+            for _ in range(200):
+                if not w.events:
+                    break
+                ev = w.events[0]
+                is_target = (
+                    kind == 'wf_action_complete' and ev.kind == 'rpc' and
+                    ev.payload[0] == 'on_action_complete' and
+                    ev.payload[2].get('wf_action')) or (
+                    kind == 'scheduled_job' and ev.kind == 'job' and
+                    '_scheduled_on_action_complete' in ev.label)
+                w.deliver(ev, ml.Result(data='ok')
+                          if ev.kind == 'action' else None)
+                if is_target and not seen['done']:
+                    seen['n'] += 1
+                    if seen['n'] == which:
+                        seen['done'] = True
+                        reach('duplicated')
+                        reach('dup-' + kind)
+                        e2 = Event(ev.kind, ev.label + ' (dup)', ev.payload)
+                        w.post(e2)
+                        if where == 'next':
+                            w.events.remove(e2)
+                            w.events.insert(0, e2)
+            assume(seen['done'])
+            reach('quiescent')
+            rows = w.rows('WorkflowExecution')
+            p1 = w.task('p1', wid)
+            info = {'states': [(x['workflow_name'], x['state'])
+                               for x in rows],
+                    'p1': p1 and (p1['state'], (p1['runtime_context'] or {})
+                                  .get('with_items')),
+                    'errors': [(m, repr(e)[:160]) for m, e in w.errors]}
+            check(w.wf_ex(wid)['state'] == 'SUCCESS' and
+                  p1['state'] == 'SUCCESS' and
+                  w.task('p2', wid) is not None,
+                  'run-did-not-end-as-with-one-delivery',
+                  dict(info, signature=sig + ':final'))
+            kids = [x for x in rows if x['task_execution_id']]
+            check(len(kids) == 3 and all(x['state'] == 'SUCCESS'
+                                         for x in kids),
+                  'item-sub-workflows-differ-from-single-delivery',
+                  dict(info, signature=sig + ':kids', n=len(kids)))
+            names = [t['name'] for t in w.tasks(wid)]
+            check(sorted(names) == ['p1', 'p2'], 'task-created-twice',
+                  dict(info, signature=sig + ':task-twice', names=names))
+    return case
+
+
+@obligation(
+    'C06.S', engine='symx+world(minidb)',
+    functions=['mistral.engine.default_engine:DefaultEngine.on_action_complete',
+               'mistral.engine.actions:WorkflowAction.complete',
+               'mistral.engine.task_handler:schedule_on_action_complete',
+               'mistral.engine.task_handler:_scheduled_on_action_complete',
+               'mistral.engine.tasks:WithItemsTask.on_action_complete',
+               'mistral.engine.tasks:WithItemsTask._increase_capacity',
+               'mistral.engine.tasks:WithItemsTask.is_with_items_completed'],
+    bounds='a with-items task over 3 sub-workflows with concurrency 2; the '
+           '1st-3rd completion message of a sub-workflow item, or the '
+           '1st-3rd scheduled completion job of the task, is delivered '
+           'twice (right away or after everything else); FIFO; all actions '
+           'succeed',
+    stubs=['minidb', 'QueueRPC', 'FakeScheduler', 'FakeExecutor',
+           'post-commit queue inline'],
+    outside='failing items; more than one duplicate')
+def c06_s(ctx):
+    """with a sub-workflow item's completion (or the task's scheduled
+    completion job) delivered twice the with-items task and the parent still
+    finish SUCCESS, every item ran once, the follow-up task ran once"""
+    boot()
+    yield Case('items-subwf', _c06_s_case(3),
+               needed=['duplicated', 'quiescent', 'dup-wf_action_complete',
+                       'dup-scheduled_job'])
